@@ -142,18 +142,20 @@ PROPS = {
                   "edges); Assert-terminator census with dominating-guard classification",
     ),
     "C03": dict(
-        rules=[R("placeholder", "rule_placeholder")],
-        clause="Every conditional jump emitted for a pattern, alternative, guard, type check or map-key test is filed in "
+        rules=[R("placeholder", "rule_placeholder"), R("placeholder", "rule_match_order")],
+        clause="The three jump lists of a match arm are patched where the arm's structure requires (R-MATCH-ORDER). "
+               "Every conditional jump emitted for a pattern, alternative, guard, type check or map-key test is filed in "
                "a placeholder list and patched on every path by the function that owns the list (R-PLACEHOLDER). An "
                "unpatched placeholder keeps offset 0, so a failed test falls into the arm. Not decided: which arm a "
                "subject selects, what gets bound.",
         technique="path-sensitive typestate (linear resources + owned collections) over MIR",
     ),
     "C12": dict(
-        rules=[R("compiler", "rule_span")],
+        rules=[R("compiler", "rule_span"), R("vm", "rule_ip_sync")],
         clause="The compiler's span stack is balanced on every non-error path of every Compiler method, so no construct "
-               "can shift the source positions of everything compiled after it (R-SPAN). Not decided: which line a fault "
-               "maps to, trace order, excerpt rendering.",
+               "can shift the source positions of everything compiled after it (R-SPAN); the position the VM records for diagnostics is "
+               "refreshed on every entry of the interpreter loop and after every instruction (R-IP-SYNC). Not decided: which "
+               "line a fault maps to, trace order, excerpt rendering.",
         technique="path-sensitive typestate (counter) over MIR with discriminant correlation",
     ),
     "C05": dict(
@@ -186,9 +188,10 @@ PROPS = {
         technique="MIR dominance / must-pass-through and constant-argument analysis",
     ),
     "C18": dict(
-        rules=[R("vm", "rule_import"), R("vm", "rule_import_once")],
+        rules=[R("vm", "rule_import"), R("vm", "rule_import_once"), R("vm", "rule_resolve_order")],
         clause="run_import rolls back on every failing path (R-IMPORT) and orders lookup -> placeholder -> module run, "
-               "with the in-progress edge reaching only an error exit (R-IMPORT-ONCE). Not decided: behaviour over "
+               "with the in-progress edge reaching only an error exit (R-IMPORT-ONCE); `name.koto` is tested before "
+               "`name/main.koto` (R-RESOLVE-ORDER). Not decided: behaviour over "
                "arbitrary module graphs, resolution order, export visibility.",
         technique="MIR path and dominance rules on KotoVm::run_import",
     ),
